@@ -108,7 +108,9 @@ impl Mul<f64> for Duration {
         let ten: f64 = 10.0;
 
         loop {
-            if (new_val.floor() - new_val).abs() < f64::EPSILON {
+            // 10^38 is the largest power of ten that fits in an i128: past that precision the
+            // digits that are left cannot move the product by a nanosecond anyway.
+            if (new_val.floor() - new_val).abs() < f64::EPSILON || p >= 38 {
                 // Yay, we've found the precision of this number
                 break;
             }
